@@ -330,9 +330,12 @@ var lastAll struct {
 }
 
 func checkControlAll(c rangeCase) error {
-	c.Plan = nil
-	ri, err := runOne(&c)
 	lastAll.runs, lastAll.deepRuns, lastAll.tree = 0, 0, nil
+	p, err := prepare(&c)
+	if err != nil {
+		return err
+	}
+	ri, err := p.run(nil)
 	if err != nil {
 		return err
 	}
@@ -340,9 +343,7 @@ func checkControlAll(c rangeCase) error {
 	n := ri.events
 	for at := 0; at < n; at++ {
 		for _, do := range []string{"break", "terminate", "error"} {
-			cc := c
-			cc.Plan = []action{{At: at, Do: do}}
-			r, err := runOne(&cc)
+			r, err := p.run([]action{{At: at, Do: do}})
 			if err != nil {
 				return fmt.Errorf("%s at callback %d of %d: %v", do, at, n, err)
 			}
@@ -355,7 +356,7 @@ func checkControlAll(c rangeCase) error {
 			}
 		}
 	}
-	return nil
+	return p.unchanged()
 }
 
 func TestControlAll(t *testing.T) {
